@@ -25,25 +25,35 @@ func init() {
 
 func init() {
 	props["C11"] = PropDef{Level: "exploration", QuickS: 50, ThoroughS: 600,
-		Units: []Unit{{Name: "reasm-c11", Pkg: "./props/reasm", Sim: "c11r", Share: 0.5}, {Name: "tcpasm-c11", Pkg: "./props/tcpasm", Sim: "c11t", Share: 0.5}},
-		Rule: "one evaluation = one simulated run of 1-8 connections (open, transfer, FIN, RST, stall, re-open of the same 4-tuple), network faults, age-based flushes with and without closing, backward clock jumps, page limits, then flush-all; lifecycle, leak, page-limit and age-flush invariants audited after every event; non-trivial = at least one fault fired; distinct = distinct event-log fingerprints among non-trivial runs",
+		Units:    []Unit{{Name: "reasm-c11", Pkg: "./props/reasm", Sim: "c11r", Share: 0.5}, {Name: "tcpasm-c11", Pkg: "./props/tcpasm", Sim: "c11t", Share: 0.5}},
+		Rule:     "one evaluation = one simulated run of 1-8 connections (open, transfer, FIN, RST, stall, re-open of the same 4-tuple), network faults, age-based flushes with and without closing, backward clock jumps, page limits, then flush-all; lifecycle, leak, page-limit and age-flush invariants audited after every event; non-trivial = at least one fault fired; distinct = distinct event-log fingerprints among non-trivial runs",
 		RealStub: "real: reassembly and tcpassembly Assembler, StreamPool, page caches; stub: senders, network, clock, streams (completion answers are a per-run policy)",
-		Assume: tcpAssume}
+		Assume:   tcpAssume}
 }
 
 func init() {
 	props["C13"] = PropDef{Level: "exploration", QuickS: 40, ThoroughS: 600,
-		Units: []Unit{{Name: "defrag-v4", Pkg: "./props/defrag", Sim: "c13v4", Share: 0.8}, {Name: "defrag-v6", Pkg: "./props/defrag", Sim: "c13v6", Share: 0.2}},
-		Rule: "one evaluation = one simulated run: 1-4 datagrams over 1-4 (src,dst,id) keys (header 20-60 bytes, payload 9-65515 bytes, cut at seeded multiples of 8), network reordering/duplication/loss, key reuse, a hostile injector (conflicting overlaps, holes, undersized, oversize, >8192 fragments) and DiscardOlderThan timers on the simulated clock; reference model of the received set per key checked at every call; non-trivial = at least one fault fired; distinct = distinct event-log fingerprints among non-trivial runs",
+		Units:    []Unit{{Name: "defrag-v4", Pkg: "./props/defrag", Sim: "c13v4", Share: 0.8}, {Name: "defrag-v6", Pkg: "./props/defrag", Sim: "c13v6", Share: 0.2}},
+		Rule:     "one evaluation = one simulated run: 1-4 datagrams over 1-4 (src,dst,id) keys (header 20-60 bytes, payload 9-65515 bytes, cut at seeded multiples of 8), network reordering/duplication/loss, key reuse, a hostile injector (conflicting overlaps, holes, undersized, oversize, >8192 fragments) and DiscardOlderThan timers on the simulated clock; reference model of the received set per key checked at every call; non-trivial = at least one fault fired; distinct = distinct event-log fingerprints among non-trivial runs",
 		RealStub: "real: ip4defrag.IPv4Defragmenter, ip6defrag.IPv6Defragmenter; stub: fragmenting senders, network, clock",
-		Assume: []string{"fragments are layers.IPv4 / layers.IPv6Fragment values built field by field with Length consistent with header and payload", "IPv6: one datagram per identification; behaviour after completion is not checked", "the defragmenter may keep references to the fragments it was given (buffers are not reused by the harness)"}}
+		Assume:   []string{"fragments are layers.IPv4 / layers.IPv6Fragment values built field by field with Length consistent with header and payload", "IPv6: one datagram per identification; behaviour after completion is not checked", "the defragmenter may keep references to the fragments it was given (buffers are not reused by the harness)"}}
+}
+
+func init() {
+	props["C14"] = PropDef{Level: "fault_enumeration", QuickS: 45, ThoroughS: 600,
+		Units:    []Unit{{Name: "capfile-pcap", Pkg: "./props/capfile", Sim: "c14pcap", Share: 0.4}, {Name: "capfile-ng", Pkg: "./props/capfile", Sim: "c14ng", Share: 0.6}},
+		Rule:     "one evaluation = one seeded capture (0-12 packets, all data-length residues mod 4, capture length <= length, timestamps across the format's range; pcapng: 1-3 interfaces some added between packets, section/interface strings including empty ones, per-packet options) written by the real writer into the simulated file, read back through a chunked simulated stream by the copying and zero-copy calls, and then cut at EVERY byte offset (files up to 2 KiB; write boundaries +-2 and 64 seeded offsets beyond) with the reader required to return exactly the wholly contained packets and then an EOF-class error; a seeded subset is also read by libpcap (cgo); non-trivial = at least one crash cut, short-read mode or data-with-EOF fired; distinct = distinct event-log fingerprints among non-trivial runs",
+		RealStub: "real: pcapgo.Writer, NgWriter, Reader, NgReader, bufio, libpcap via pcap.OpenOffline; stub: the file (sim/disk.File), the stream (sim/disk.Stream)",
+		Assume:   []string{"the writer is flushed after every packet so that block boundaries are known; a crash is a cut of the bytes written so far", "libpcap is only asked to read files with one link type and snap length", "timestamps are never the zero time.Time (the pcap writer substitutes the wall clock for it)"}}
 }
 
 var probeNames = map[string][]string{
-	"c09": {"stream_crosses_wrap", "wrap_inside_delivery", "flush_forced_skip", "limit_forced_skip", "syn_overtaken_by_data", "gap_announced", "delivery_without_start", "kept_bytes_presented", "multi_page_with_saved"},
-	"c11r": {"flush_forced_skip", "limit_forced_skip"},
-	"c11t": {"flush_forced_skip", "limit_forced_skip"},
-	"c13v4": {"datagram_reassembled", "datagram_with_options_reassembled", "unfragmented_passthrough", "partial_datagram_discarded", "key_collision_mixed", "hostile_set_reassembled", "8000_fragments_reassembled"},
-	"c13v6": {"ipv6_reassembled"},
-	"c10": {"stream_crosses_wrap", "wrap_inside_delivery", "flush_forced_skip", "limit_forced_skip", "syn_overtaken_by_data", "gap_announced", "delivery_without_start"},
+	"c09":     {"stream_crosses_wrap", "wrap_inside_delivery", "flush_forced_skip", "limit_forced_skip", "syn_overtaken_by_data", "gap_announced", "delivery_without_start", "kept_bytes_presented", "multi_page_with_saved"},
+	"c11r":    {"flush_forced_skip", "limit_forced_skip"},
+	"c11t":    {"flush_forced_skip", "limit_forced_skip"},
+	"c13v4":   {"datagram_reassembled", "datagram_with_options_reassembled", "unfragmented_passthrough", "partial_datagram_discarded", "key_collision_mixed", "hostile_set_reassembled", "8000_fragments_reassembled"},
+	"c13v6":   {"ipv6_reassembled"},
+	"c14pcap": {"exhaustive_cut_sweep", "libpcap_read_pcap"},
+	"c14ng":   {"exhaustive_cut_sweep", "libpcap_read_pcapng", "interface_with_timestamp_offset", "interface_added_between_packets"},
+	"c10":     {"stream_crosses_wrap", "wrap_inside_delivery", "flush_forced_skip", "limit_forced_skip", "syn_overtaken_by_data", "gap_announced", "delivery_without_start"},
 }
